@@ -902,6 +902,12 @@ func (g *genState) genCase(id string) {
 			txn(ins(o, "insert"))
 			txn(del(o.ID))
 			g.emit("close %d", a)
+			// sometimes the collector scans right now - no iterator, a non-empty graveyard - and applies only after
+			// the new iterator has been handed its first deletion (S4-C07-2: "no iterators" remembered from the scan)
+			scanned := r.Chance(50)
+			if scanned {
+				g.emit("gcscan")
+			}
 			oc := *o // the same keys (unique keys are derived from the id), another value
 			oc.Val = o.Val%9 + 1
 			o2 := &oc
@@ -910,11 +916,17 @@ func (g *genState) genCase(id string) {
 			g.nextIter++
 			if r.Chance(50) {
 				txn(func() { g.emit("changes %d %d", b, tb) })
+				g.iters[b] = tb
+				g.emit("next %d fresh all", b)
+				g.itSnap[b] = len(g.snaps)
 				txn(del(o.ID))
 			} else {
 				txn(func() { g.emit("changes %d %d", b, tb); del(o.ID)() })
+				g.iters[b] = tb
 			}
-			g.iters[b] = tb
+			if scanned {
+				g.emit("gcapply")
+			}
 			g.emit("next %d fresh all", b)
 			g.itSnap[b] = len(g.snaps)
 			g.emit("gcscan")
@@ -963,6 +975,8 @@ func (g *genState) genCase(id string) {
 }
 
 func (e *eng) Gen(r *hx.Rand, n int, tier string, prop string, out *hx.Out) {
+	out.P("#case probe-sidewriter")
+	out.P("probe sidewriter")
 	for c := 0; c < n; c++ {
 		g := &genState{r: r.Fork(), out: out, prop: prop}
 		g.genCase(fmt.Sprintf("%s-%d", prop, c))
